@@ -971,13 +971,13 @@ class Mutations:
                 np.delete(new_sigma_inv, to_remove, 0), to_remove, 1
             )
 
-        # Add new zeros corresponding to new params, make lambda down identity diagonal
+        # Add new zeros corresponding to new params, make 1 / lambda down identity diagonal
         if len(to_add) > 0:
             new_sigma_inv = np.insert(
                 np.insert(new_sigma_inv, to_add, 0, 0), to_add, 0, 1
             )
             for i in to_add:
-                new_sigma_inv[i, i] = individual.lamb
+                new_sigma_inv[i, i] = 1 / individual.lamb
 
         individual.exp_layer = exp_layer
         individual.sigma_inv = torch.from_numpy(new_sigma_inv).to(
